@@ -690,25 +690,29 @@ func c17Output(c *Ctx, run *ssa.Function) {
 			loops++
 			// items of the output list: an append to it, or the fill of out[i] of a
 			// list made with len(results) elements (i the loop's own index)
-			isItem := func(in ssa.Instruction) bool {
+			isItem := func(in ssa.Instruction) string {
 				switch x := in.(type) {
 				case *ssa.Call:
-					return ssau.CallName(x) == "builtin.append" && !strings.HasPrefix(x.Type().String(), "[]string")
+					if ssau.CallName(x) == "builtin.append" && !strings.HasPrefix(x.Type().String(), "[]string") {
+						return "item"
+					}
 				case *ssa.IndexAddr:
+					// out[i] of a list made with len(results) elements: one
+					// element per result by construction, however it is filled
 					if mk, ok := x.X.(*ssa.MakeSlice); ok && x.Index == idxVal {
 						if lc, ok := mk.Len.(*ssa.Call); ok && ssau.CallName(lc) == "builtin.len" && rt.isList(lc.Common().Args[0]) {
-							return true
+							return "fill"
 						}
 					}
 				}
-				return false
+				return ""
 			}
 			eng := pathev.New(func(in ssa.Instruction) []string {
 				if call, ok := in.(*ssa.Call); ok && isPrintCall(call) {
 					return []string{"print"}
 				}
-				if isItem(in) {
-					return []string{"item"}
+				if ev := isItem(in); ev != "" {
+					return []string{ev}
 				}
 				return nil
 			}, nil)
@@ -721,9 +725,12 @@ func c17Output(c *Ctx, run *ssa.Function) {
 			switch {
 			case m.Get("print").Always():
 				r.OK("O-2", key, pos, "every iteration prints")
+			case m.Get("print").Never() && m.Get("item") == pathev.Zero && m.Get("fill") != pathev.Zero:
+				jsonBody = &jsonLoop{rt, body}
+				r.OK("O-3", fk+"#json-one-item-per-result", pos, "the output list is made with len(results) elements and element i is filled from result i")
 			case m.Get("print").Never() && m.Get("item") != pathev.Zero:
 				jsonBody = &jsonLoop{rt, body}
-				r.Check(m.Get("item").ExactlyOnce(), "O-3", fk+"#json-one-item-per-result", pos, "exactly one item of the output list per result", fmt.Sprintf("the json item loop produces %v items per result", m.Get("item")))
+				r.Check(m.Get("item").ExactlyOnce() && m.Get("fill") == pathev.Zero, "O-3", fk+"#json-one-item-per-result", pos, "exactly one item of the output list per result", fmt.Sprintf("the json item loop produces %v items per result", m.Get("item")))
 			default:
 				r.Bad("O-2", key, pos, fmt.Sprintf("a loop over the results does not emit on every iteration (print%v): results are filtered at display time", m.Get("print")))
 			}
@@ -878,6 +885,10 @@ func c17Output(c *Ctx, run *ssa.Function) {
 	r.Check(bad == 0, "O-3", fk+"#json-branch-clean", c.P.Pos(em.call.Pos()), "only the JSON emission writes in the json branch", fmt.Sprintf("%d other output call(s) inside the json branch corrupt the JSON block", bad))
 	// the emitted value is the list built in the per-result loop
 	built := helperBuilt
+	if hc, ok := em.list.(*ssa.Call); ok && jsonBody != nil && hc.Common().StaticCallee() == jsonBody.rt.fn {
+		// the list comes from the helper in which the item loop was found
+		built = true
+	}
 	switch x := em.list.(type) {
 	case *ssa.Phi:
 		for _, e := range x.Edges {
